@@ -64,3 +64,14 @@ Definition wf_end_stream (t : json) : Prop :=
     (forall k v, In (k, v) ms ->
        (k = bs "error" /\ wf_connect_error v) \/
        (k = bs "metadata" /\ exists es, v = JObj es /\ Forall wf_metadata_entry es)).
+
+(* ---------- what a server may put into a Connect error / end-of-stream message ---------- *)
+(* an error detail: a full type name, value bytes, and (when the type resolves) a debug rendering that is
+   some duplicate-free JSON value *)
+Definition wf_wdetail (d : wdetail) : Prop :=
+  fullname_valid (fst (fst d)) = true /\ Forall is_byte (snd (fst d)) /\
+  (forall j, snd d = Some j -> clean_json j).
+(* a metadata field: token name, field-content values (RFC 7230) *)
+Definition wf_field (h : header) : Prop := Forall tchar (fst h) /\ Forall (Forall vchar) (snd h).
+Definition wf_wire_error (e : N * bytes * list wdetail) : Prop :=
+  1 <= fst (fst e) <= 16 /\ Forall wf_wdetail (snd e).
